@@ -675,6 +675,28 @@ func rulePairUpdate(p *Prog, r *Report) {
 			if x.Value == ssa.Value(valP) {
 				events[x.Block()]++
 				r.OK(rule, n, construct+": value", p.Pos(x.Pos()), "the new value")
+				// the sub-key conditions are evaluated on the node that is written (or on the node holding the written entry)
+				tested := false
+				var testedNodes []string
+				for _, g := range dominatingGuards(x.Block()) {
+					ng := normGuard(g)
+					c, isCall := ng.Cond.(*ssa.Call)
+					if !isCall || !ng.Pol {
+						continue
+					}
+					if callee := staticCallee(&c.Call); callee == nil || p.Name(callee) != "mxj.hasSubKeys" {
+						continue
+					}
+					testedNodes = append(testedNodes, cz.of(nodeRoot(c.Call.Args[0])))
+					if nodeRoot(c.Call.Args[0]) == nodeRoot(x.Map) {
+						tested = true
+					}
+				}
+				if tested {
+					r.OK(rule, n, construct+": sub-keys tested on the written node", p.Pos(x.Pos()), "hasSubKeys is evaluated on "+cz.of(nodeRoot(x.Map)))
+				} else {
+					r.Bad(rule, n, construct+": sub-keys tested on the written node", p.Pos(x.Pos()), "the entry is written in "+cz.of(nodeRoot(x.Map))+" but the sub-key conditions that guard the write are evaluated on "+strings.Join(testedNodes, ", ")+" (or not at all)")
+				}
 			} else if mi, ok := x.Value.(*ssa.MakeInterface); ok && p.rebuiltList(fn, mi.X, valP) {
 				listStores = append(listStores, x)
 				r.OK(rule, n, construct+": value", p.Pos(x.Pos()), "a rebuilt list whose members are the old members or the new value")
@@ -736,6 +758,30 @@ func rulePairUpdate(p *Prog, r *Report) {
 			r.OK(rule, n, "zero count means no write (list form)", p.Pos(mu.Pos()), "the rebuilt list is stored only under a flag that is set together with a counter increment")
 		} else {
 			r.Bad(rule, n, "zero count means no write (list form)", p.Pos(mu.Pos()), "the list entry may be overwritten although nothing was replaced")
+		}
+	}
+}
+
+// nodeRoot strips the assertions and interface conversions between a Map node and the map value the code works with.
+func nodeRoot(v ssa.Value) ssa.Value {
+	for {
+		switch x := v.(type) {
+		case *ssa.TypeAssert:
+			v = x.X
+		case *ssa.MakeInterface:
+			v = x.X
+		case *ssa.ChangeType:
+			v = x.X
+		case *ssa.ChangeInterface:
+			v = x.X
+		case *ssa.Extract:
+			if ta, ok := x.Tuple.(*ssa.TypeAssert); ok && x.Index == 0 {
+				v = ta.X
+				continue
+			}
+			return v
+		default:
+			return v
 		}
 	}
 }
